@@ -111,7 +111,9 @@ func (form FormData) ParseMultipart() {
 		}
 		panic("form: " + err.Error())
 	}
-	form.data.values = form.request.MultipartForm.Value
+	// request.Form contains the query parameters and, after the call to
+	// ParseMultipartForm, also the values of the multipart form.
+	form.data.values = form.request.Form
 	form.data.files = make(map[string][]File, len(form.request.MultipartForm.File))
 	for field, fhs := range form.request.MultipartForm.File {
 		files := make([]File, 0, len(fhs))
